@@ -16,7 +16,38 @@ def nontrivial(chk, st, rid, evs):
         chk.sample({"u": e["u"][:8], "v": e["v"], "s": e["s"][:8], "d": e["d"], "assign": e["assign"][:8]}, limit=3)
 
 
+def sweep_model(chk):
+    """Design level: the sweep of Transportation1dSolver transcribed action by action; TLC checks termination, feasibility, minimum cost
+    and the rounding contract on every sorted positive tiny instance; every final state is replayed into a real solver (implementation
+    conformance, informational: the contract is what decides)."""
+    import json
+    cfg = "T1dImpl_" + chk.tier
+    d = vlib.scratch("C14-sweep")
+    out = os.path.join(d, "finals.out")
+    res = vlib.tlc_ok(vlib.tlc("T1dImpl", cfg=cfg, workers=16, coverage=True, stdout_path=out, timeout=3000, xmx="16g"), cfg)
+    if res["violated"]:
+        raise vlib.FrameworkError("T1dImpl violates its own invariants: %s" % res["violated"])
+    for act in ("Push", "PushOnce", "EndPush", "Flush"):
+        if res["coverage"].get(act, [0, 0])[1] == 0:
+            raise vlib.FrameworkError("vacuous T1dImpl model: action %s never taken" % act)
+    chk.add_tlc(res, "tlc sweep model (termination, plan feasible and of minimum cost, rounding contract, queue discipline)")
+    exe = vlib.build_exe("asan-ubsan", "replay")
+    rc, so, se = vlib.run_exe(exe, stdin_path=out, timeout=3000)
+    if rc != 0:
+        chk.violation("the real solver died on the final states of the sweep model (rc=%s): %s" % (rc, (se or "")[-600:]),
+                      {"kind": "cases", "module": "T1dImpl", "cfg": cfg}, "replay-crash")
+        shutil.rmtree(d, ignore_errors=True)
+        return
+    summ = [json.loads(l) for l in so.splitlines() if l.startswith("{") and '"summary"' in l]
+    if not summ or summ[0]["impl_seen"] == 0:
+        raise vlib.FrameworkError("no T1dImpl final state was replayed")
+    chk.cov.setdefault("impl_conformance", {})[cfg] = {"instances": summ[0]["impl_seen"], "real_plan_and_assignment_equal_model": summ[0]["impl_same"]}
+    chk.step("real sweep == transcribed sweep (plan and assignment)", instances=summ[0]["impl_seen"], conformant=summ[0]["impl_same"])
+    shutil.rmtree(d, ignore_errors=True)
+
+
 def run(chk):
+    sweep_model(chk)
     d = vlib.scratch("C14-emit")
     out = os.path.join(d, "cases.out")
     cfg = "Transport1d_" + chk.tier
